@@ -45,6 +45,7 @@ func c07Check(res *core.CaseResult, target string, m gen.Mutant, seedText []byte
 	}
 	if err != nil {
 		res.Count("rejected", 1)
+		c07Canary(res, target, wit)
 		return
 	}
 	res.Count("decoded", 1)
@@ -130,6 +131,29 @@ func c07Check(res *core.CaseResult, target string, m gen.Mutant, seedText []byte
 		fmt.Sprintf("at %s: first encoding has %s, second has %s", it.Pointer(), core.Abbrev(oracle.Text(it.Before), 120), core.Abbrev(oracle.Text(it.After), 120)), wit)
 }
 
+// canaries: after a rejected input, a known normal-form document must still decode to exactly itself
+// (a decoder that recycles state must not let a failed decode leak into the next one).
+var c07Canaries = map[string]string{
+	"schema":  `{"type":"string","pattern":"^a+$"}`,
+	"swagger": `{"swagger":"2.0","info":{"title":"t","version":"1"},"paths":{"/p":{"get":{"responses":{"200":{"description":"ok","schema":{"type":"integer"}}}}}},"definitions":{"d":{"type":"object","properties":{"p":{"type":"boolean"}}}}}`,
+}
+
+func c07Canary(res *core.CaseResult, afterTarget string, wit map[string]interface{}) {
+	for kind, text := range c07Canaries {
+		out, _, stage, detail := roundTrip(kind, []byte(text))
+		res.Count("canary-checks", 1)
+		if stage != "" {
+			res.Violate("canary-"+kind+"-fails-after-a-rejected-input: "+stage, detail, wit)
+			continue
+		}
+		a, _ := oracle.Parse([]byte(text))
+		b, err := oracle.Parse(out)
+		if err != nil || !oracle.Equal(a, b) {
+			res.Violate("canary-"+kind+"-changed-after-a-rejected-input", fmt.Sprintf("after a rejected %s input, %s decodes and encodes as %s", afterTarget, text, core.Abbrev(string(out), 300)), wit)
+		}
+	}
+}
+
 func c07Run(env *core.Env, idx int) core.CaseResult {
 	var res core.CaseResult
 	rng := core.Rng(env.Seed, "C07", idx)
@@ -142,6 +166,7 @@ func c07Run(env *core.Env, idx int) core.CaseResult {
 		g := gen.NewDocGen(rng)
 		g.Refs, g.XOrder, g.Fragile, g.EmptyRequired = true, rng.Intn(2) == 0, rng.Intn(2) == 0, rng.Intn(2) == 0
 		g.MaxDepth = 2 + rng.Intn(3)
+		g.BigMaps = rng.Intn(10) == 0
 		kind := gen.DocKinds[rng.Intn(len(gen.DocKinds))]
 		doc := g.Gen(kind)
 		seedText, _ := json.Marshal(doc)
@@ -198,7 +223,7 @@ func c07Run(env *core.Env, idx int) core.CaseResult {
 }
 
 func init() {
-	floors := []string{"decoded", "rejected", "nontrivial", "casefold(totality-only)"}
+	floors := []string{"decoded", "rejected", "nontrivial", "casefold(totality-only)", "canary-checks"}
 	for _, t := range c07Targets {
 		floors = append(floors, "target."+t)
 	}
